@@ -30,7 +30,36 @@ from harness import fw
 from harness.fw import Check, Driver, ToolFailure
 
 HOOK = ["Node", "Interval", "Variable"]
-ORDERS = ["M", "CM", "Mrev", "C2", "MC", "C", "M", "CM"]
+# hand-modelled / assumed functions: a changed normalised-AST hash escalates the run (never a verdict)
+PINS = [
+    ("androguard/decompiler/util.py", "get_access_class"),
+    ("androguard/decompiler/util.py", "get_access_method"),
+    ("androguard/decompiler/util.py", "get_access_field"),
+    ("androguard/decompiler/util.py", "common_dom"),
+    ("androguard/decompiler/decompile.py", "DvMethod.__init__"),
+    ("androguard/decompiler/decompile.py", "DvMethod.process"),
+    ("androguard/decompiler/decompile.py", "DvClass.__init__"),
+    ("androguard/decompiler/decompile.py", "DvClass.process_method"),
+    ("androguard/decompiler/dast.py", "JSONWriter.get_ast"),
+    ("androguard/decompiler/node.py", "Node.update_attribute_with"),
+    ("androguard/decompiler/node.py", "Interval.compute_end"),
+    ("androguard/decompiler/node.py", "Interval.add_node"),
+    ("androguard/decompiler/basic_blocks.py", "BasicBlock.add_variable_declaration"),
+    ("androguard/decompiler/control_flow.py", "short_circuit_struct"),
+    ("androguard/decompiler/control_flow.py", "loop_follow"),
+    ("androguard/decompiler/control_flow.py", "if_struct"),
+    ("androguard/decompiler/control_flow.py", "switch_struct"),
+    ("androguard/decompiler/dataflow.py", "place_declarations"),
+    ("androguard/decompiler/writer.py", "Writer.visit_node"),
+    ("androguard/decompiler/writer.py", "Writer.write_method"),
+    ("androguard/decompiler/graph.py", "dom_lt"),
+    ("androguard/decompiler/graph.py", "GenInvokeRetName"),
+]
+# the ORDER dimension: source-only orders and orders in which AST-mode requests (A/a methods, X/x classes; fresh
+# DvMethod/DvClass objects, as DecompilerDAD.get_ast_method/get_ast_class create them) precede or follow the source
+# requests whose text is compared.  The first 8 are the quick tier.
+ORDERS = ["M", "AM", "CM", "XC", "Mrev", "Ma", "C2", "Cx",
+          "MC", "aM", "C", "xM", "AXC", "MX", "CA", "XM"]
 CORPUS = os.path.join(fw.VERIF, "corpus", "C22")
 
 
@@ -156,8 +185,9 @@ def corpus_cases():
 
 # ----------------------------------------------------------------------------------------- oracle
 def group_key(k):
-    """M/K keys of one method, C/R keys of one class must all carry the same text"""
-    return ("m " if k[0] in "MK" else "c ") + k[2:]
+    """M/K keys of one method, C/R keys of one class must all carry the same source text;
+    A keys of one method / X keys of one class the same JSON AST text"""
+    return {"M": "m ", "K": "m ", "C": "c ", "R": "c ", "A": "a ", "X": "x "}[k[0]] + k[2:]
 
 
 def compare_outputs(runs):
@@ -192,7 +222,7 @@ def report_diffs(ck, pool, path, spec, diffs, limit):
     spec = {k: v for k, v in spec.items() if k not in ("file", "order", "want")}
     n = 0
     # methods first (smaller texts), then whole classes
-    for g, variants in sorted(diffs.items(), key=lambda kv: (kv[0][0] != "m", kv[0])):
+    for g, variants in sorted(diffs.items(), key=lambda kv: ("maxc".index(kv[0][0]), kv[0])):
         if n >= limit:
             break
         cls = g.split(" ")[1]
@@ -402,6 +432,7 @@ def hook_present(pool):
 
 
 def run(ck: Check):
+    ck.pins_changed(PINS)
     ck.run_gen("ordersites")
     ck.prove(exes=["drv_C22"])
     drv = Driver("drv_C22")
@@ -414,11 +445,15 @@ def run(ck: Check):
 
 def _run(ck, pool, drv):
     ck.rule = ("one evaluation = one decompiled text (method alone, method inside its class, whole class, class "
-               "processed twice) produced by the real decompiler in a fresh process; the texts of one method / one "
-               "class are compared byte for byte across all (PYTHONHASHSEED, hash salt, order) combinations. "
+               "processed twice; JSON AST of a method / of a class) produced by the real decompiler in a fresh process; "
+               "the source texts and the AST texts of one method / one class are compared byte for byte across all "
+               "(PYTHONHASHSEED, hash salt, order) combinations, the orders include AST-mode requests of the same and "
+               "of other classes before / after the source requests. "
                "distinct = distinct method texts (sha256) of the first configuration, exceptions excluded")
     salted = hook_present(pool)
     ncfg = 8 if ck.quick else 64
+    if ck.quick and getattr(ck, "escalated", False):
+        ncfg = 16        # a pinned function changed: all orders of ORDERS even in the quick tier
     cfgs = configs(ck, ncfg)
     if not salted:
         cfgs = [(hs, None, o) for hs, _, o in cfgs]
